@@ -24,7 +24,8 @@ CLAIMED = {
     "C03": {
         "level": "Static decision of the replication plumbing: queue tags/order, replay dispatch, no echo from the "
                  "replica path, writers of send_queue, every persistent mutation recorded (hence replicated), replay arguments are the "
-                 "recorded fields, recorded text is language-independent (8 known findings, the display language being per-user state).",
+                 "recorded fields, recorded text is language-independent (8 known findings, the display language being per-user state), "
+                 "and every table an operation writes is writable by the replay arms of the variants it records (2 known findings).",
         "note": "Equality of replica state for all histories is not decided; flush schedule independence follows from the "
                 "queue being an append-only Vec (argument in DESIGN.md). " + TRUST,
         "technique": "CFG dominance + effect summaries + who-may-write",
